@@ -780,7 +780,7 @@ pub fn run(args: &Args) -> Option<Report> {
         max_depth: 7,
         shard: args.shard,
         shard_depth: 3,
-        wall_cap_s: args.opt_u("wall", if quick { 35 } else { 600 }) as f64,
+        wall_cap_s: args.opt_u("wall", if quick { 120 } else { 600 }) as f64,
         exec_cap: u64::MAX / 2,
         prune: false,
         n_samples: 3,
